@@ -211,6 +211,8 @@ class WorldLoadAdapter:
         if self.env:
             k = 'behaviours_with_split_char_' + ('slash' if self.env['sep'] == '/' else 'colon')
             stats.extra[k] = stats.extra.get(k, 0) + 1
+            if self.env.get('remounted'):
+                stats.extra['behaviours_with_remounted_tree'] = stats.extra.get('behaviours_with_remounted_tree', 0) + 1
             if self.types.EQUAL[0]:
                 stats.extra['behaviours_with_value_equal_objects'] = stats.extra.get('behaviours_with_value_equal_objects', 0) + 1
         self.types.EQUAL[0] = False
@@ -270,6 +272,27 @@ class WorldLoadAdapter:
                 mutate(v)
         for h in self.env['handles'].values():
             h.clear()
+        # the model speaks of "the enclosing resource tree" at the time of the load; which map is its root between two
+        # loads is left open: in half of the behaviours the whole tree is mounted into a larger one holding other
+        # handles under the same paths (the second load must resolve $res{} / $handle{} against those)
+        if (self.variant // 6) % 2 == 0:
+            self.remount()
+
+    def remount(self):
+        env = self.env
+        sep = env['sep']
+        top = self.desper.ResourceMap()
+        handles = {'r0': self.RecHandle('r0'), 'a.b': self.RecHandle('a.b')}
+        for h in handles.values():
+            h.gen = 2           # generation of the model after Disturb (as if cleared once, like the handles they replace)
+        top['r0'] = handles['r0']
+        top['a' + sep + 'b'] = handles['a.b']
+        top['sub'] = env['rm']
+        env['old_handles'] = env['handles']     # still reachable as sub/r0, sub/a/b: no longer what the references mean
+        env['handles'] = handles
+        env['rm'] = top
+        env['key'] = 'sub' + sep + env['key']
+        env['remounted'] = True
 
     def write_file(self):
         with open(self.env['file'], 'w') as f:
